@@ -1,4 +1,5 @@
 pub mod cob;
+pub mod fetch;
 pub mod service;
 
 /// Scratch directory for one case: on tmpfs when available (sqlite and git
